@@ -134,6 +134,7 @@ type Interp struct {
 	marshalSeq uint64
 	marshalByKey map[string]uint64
 	pools map[string][]Value
+	sc *sched
 	fpBitsMemo map[*Term]*Term // per path: math.Float64bits of the same FP term yields the same bits variable
 
 	// sinks
@@ -204,6 +205,11 @@ func (in *Interp) resetPath(prefix []Decision, model map[string]uint64) {
 	in.unwindOverride = 0
 	in.pendingObs = nil
 	in.pathVars = nil
+	in.marshalTab = nil
+	in.marshalSeq = 0
+	in.marshalByKey = nil
+	in.pools = nil
+	in.schedReset()
 	in.fpBitsMemo = nil
 	in.solver.Reset()
 }
@@ -1071,6 +1077,10 @@ func (in *Interp) visitInstr(fr *frame, instr ssa.Instruction) int {
 		fr.defers = &deferred{fn: fn, args: args, instr: instr, tail: fr.defers}
 	case *ssa.Go:
 		fn, args := in.prepareCall(fr, &instr.Call)
+		if in.sc != nil && in.sc.enabled {
+			in.spawn(fn, args)
+			break
+		}
 		// fork-join only: run the goroutine body to completion here.
 		in.goInlined++
 		in.callValue(fr, fn, args)
@@ -1602,6 +1612,11 @@ func (in *Interp) findFunc(pkgPath, name string) *ssa.Function {
 
 func (in *Interp) chanSend(fr *frame, c Value, v Value) {
 	ch := c.(*Chan)
+	if in.sc != nil && in.sc.enabled {
+		in.curFrame = fr
+		in.gSend(fr, ch, v)
+		return
+	}
 	if ch == nil {
 		unsupported("send on nil channel blocks forever")
 	}
@@ -1616,6 +1631,14 @@ func (in *Interp) chanSend(fr *frame, c Value, v Value) {
 
 func (in *Interp) chanRecv(fr *frame, c Value, t types.Type, commaOk bool) Value {
 	ch := c.(*Chan)
+	if in.sc != nil && in.sc.enabled {
+		in.curFrame = fr
+		v, ok := in.gRecv(fr, ch, t.Underlying().(*types.Chan).Elem())
+		if commaOk {
+			return Tuple{v, in.tt.Bool(ok)}
+		}
+		return v
+	}
 	if ch == nil {
 		unsupported("receive on nil channel blocks forever")
 	}
@@ -1637,6 +1660,11 @@ func (in *Interp) chanRecv(fr *frame, c Value, t types.Type, commaOk bool) Value
 }
 
 func (in *Interp) selectStmt(fr *frame, instr *ssa.Select) {
+	if in.sc != nil && in.sc.enabled {
+		in.curFrame = fr
+		in.gSelect(fr, instr)
+		return
+	}
 	// pick the first ready case; otherwise default; otherwise unsupported
 	for i, st := range instr.States {
 		ch := fr.get(st.Chan).(*Chan)
